@@ -102,7 +102,7 @@ func envLen(v primitive.ProtocolVersion, s frameSpec) int {
 	if err != nil {
 		panic(err)
 	}
-	return len(b)
+	return len(b) + maxInt(s.Spare, 0)
 }
 
 // cutPoints: part lengths for an envelope of n bytes: k-1 seeded cut points, first part >= minFirst, every part in 1..131071
